@@ -24,7 +24,7 @@ BoundariesOnlyWhereRequested == m.closedAt \subseteq m.flushOffsets
 \* FULL_FLUSH completes only when everything given so far has left the encoder
 FlushCompletes ==
     (m.pc = "out" /\ m.lastRet = "STREAM_END" /\ m.act = "FULL_FLUSH") =>
-        (m.inAvail = 0 /\ c.outq = <<>> /\ Sum(m.index) = m.given /\ m.delivered = 1 + Sum(m.index) + Len(m.index))
+        (m.inAvail = 0 /\ c.outq = <<>> /\ Sum(m.index) = m.given /\ m.delivered = HdrSz + Sum(m.index) + Len(m.index))
 
 \* FULL_BARRIER completes when all input was handed over and the current Block was closed at that offset
 BarrierCompletes ==
@@ -33,7 +33,7 @@ BarrierCompletes ==
 \* LZMA_FINISH: a single complete Stream holding all the input
 FinishCompletes ==
     (m.pc = "out" /\ m.ended /\ m.lastRet = "STREAM_END") =>
-        (Sum(m.index) = Total /\ Len(m.index) = m.nblk /\ m.delivered = 1 + Total + m.nblk + 2 /\ c.outq = <<>>
+        (Sum(m.index) = Total /\ Len(m.index) = m.nblk /\ m.delivered = HdrSz + Total + m.nblk + TailSz /\ c.outq = <<>>
          /\ c.progressIn = Total)
 
 \* progress never exceeds the truth, never goes backwards
